@@ -7,6 +7,8 @@ import SeqVerif.Consistency.BinSearchSort
 import SeqVerif.Consistency.Borders
 import SeqVerif.Consistency.BulkConfigCons
 import SeqVerif.Consistency.CacheW2
+import SeqVerif.Consistency.CancelledStart
+import SeqVerif.Consistency.CaseFold
 import SeqVerif.Consistency.Collector
 import SeqVerif.Consistency.CollectorReuseCons
 import SeqVerif.Consistency.CollectorRun
@@ -14,17 +16,23 @@ import SeqVerif.Consistency.DigitsVal
 import SeqVerif.Consistency.DocBytes
 import SeqVerif.Consistency.DocBytesReplay
 import SeqVerif.Consistency.DocPos
+import SeqVerif.Consistency.DocsCacheKey
+import SeqVerif.Consistency.DurableAck
+import SeqVerif.Consistency.FetchArrangeCons
 import SeqVerif.Consistency.FileSet
 import SeqVerif.Consistency.FileSetRetention
+import SeqVerif.Consistency.FilterStats
 import SeqVerif.Consistency.FracInfoFetch
 import SeqVerif.Consistency.FracRange
 import SeqVerif.Consistency.GroupIDs
+import SeqVerif.Consistency.Handover
 import SeqVerif.Consistency.Hist
 import SeqVerif.Consistency.IdOrder
 import SeqVerif.Consistency.IdsLookup
 import SeqVerif.Consistency.IdsLookupActive
 import SeqVerif.Consistency.Int64
 import SeqVerif.Consistency.InverserPool
+import SeqVerif.Consistency.Keywords
 import SeqVerif.Consistency.LexerClasses
 import SeqVerif.Consistency.MergeAggsCons
 import SeqVerif.Consistency.MergeQPR
@@ -32,11 +40,13 @@ import SeqVerif.Consistency.MetaCodec
 import SeqVerif.Consistency.Nodes
 import SeqVerif.Consistency.NodesC03
 import SeqVerif.Consistency.NodesHist
+import SeqVerif.Consistency.NumToken
 import SeqVerif.Consistency.NumVal
 import SeqVerif.Consistency.NumValParser
 import SeqVerif.Consistency.PNot
 import SeqVerif.Consistency.Paginate
 import SeqVerif.Consistency.Positions
+import SeqVerif.Consistency.ProtoDocs
 import SeqVerif.Consistency.ProxyApiCons
 import SeqVerif.Consistency.ProxyFracLife
 import SeqVerif.Consistency.SealSync
@@ -44,6 +54,9 @@ import SeqVerif.Consistency.Seeds
 import SeqVerif.Consistency.SeedsB
 import SeqVerif.Consistency.SeedsC
 import SeqVerif.Consistency.SeedsD
+import SeqVerif.Consistency.ShardCode
+import SeqVerif.Consistency.SysHyps
+import SeqVerif.Consistency.SysHypsB
 import SeqVerif.Consistency.TimeRule
 import SeqVerif.Consistency.TimeRuleBuckets
 import SeqVerif.Consistency.TokenTable
